@@ -41,6 +41,9 @@ class Prop(common.PropertyCheck):
                   ['FL1', 'FL3', 'FL2'], ['FL2', 'FL1', 'FL3'], ['FL2', 'FL1']]
         for i in range(4):
             yield {'k': 'partial', 'seed': i, 'layout': 'unknown_rows'}
+        # events without a finite value (floating-point samples): the channel's curve is applied to them like to any other event
+        for i in range(self.budget(12, 80)):
+            yield {'k': 'nonfinite', 'seed': rng.randrange(1 << 30), 'cont': ['array', 'sample'][i % 2], 'req': ['all', 'one', 'both'][i % 3]}
         layouts = ['same', 'swapped', 'dropped', 'reversed', 'lacking']
         for i in range(self.budget(20, 150)):
             yield {'k': 'partial', 'seed': rng.randrange(1 << 30), 'layout': layouts[(i // len(orders) + i) % len(layouts)], 'order': orders[i % len(orders)]}
@@ -138,6 +141,8 @@ class Prop(common.PropertyCheck):
             return self.run_big(case)
         if case['k'] == 'partial':
             return self.run_partial(case)
+        if case['k'] == 'nonfinite':
+            return self.run_nonfinite(case)
         d, names, cols, sc_channels, channels, want, ncur = self.build(case)
         sc_list = [curve(k) for k in range(ncur)]
         out = {'meta': meta_of(d), 'in': arr_bits(d), 'cols': cols, 'want': want, 'ncur': ncur,
@@ -148,6 +153,9 @@ class Prop(common.PropertyCheck):
             t = FlowCal.transform.to_mef(d, channels, sc_list, sc_channels)
         except Exception as e:
             out['err'] = type(e).__name__
+            return out
+        if np.asarray(t).shape != np.asarray(d).shape:
+            out['shape_changed'] = 'a sample of shape %s came back with shape %s' % (list(np.asarray(d).shape), list(np.asarray(t).shape))
             return out
         out['out'] = np.asarray(t, dtype=float).tolist()
         out['inv'] = np.asarray(d, dtype=float).tolist()
@@ -174,6 +182,34 @@ class Prop(common.PropertyCheck):
             out['perm_same'] = same
             out['nperm'] = len(perms)
         return out
+
+    def run_nonfinite(self, case):
+        import random
+        r = np.random.RandomState(case['seed'] % (1 << 31))
+        a = r.uniform(-50, 900, size=(12, 3))
+        a[1, 0] = np.inf; a[2, 0] = -np.inf; a[3, 0] = np.nan; a[4, 2] = np.inf; a[5, 2] = np.nan; a[7, 1] = np.inf
+        d = a
+        if case['cont'] == 'sample':
+            spec = samples.spec_rich(random.Random(case['seed']), N=2, D=3, datatype='F')
+            s0, _ = samples.load(spec, name='c06nf.fcs')
+            d = s0[[0] * 12].astype(np.float64)
+            d[:] = a
+        curves = [lambda x: np.clip(3.0 * np.asarray(x, dtype=float), 0.0, 1000.0), lambda x: 2.0 * np.asarray(x, dtype=float) ** 2 + 1.0,
+                  lambda x: 5.0 / (1.0 + np.abs(np.asarray(x, dtype=float)))]
+        chs = {'all': [0, 1, 2], 'one': [0], 'both': [2, 0]}[case['req']]
+        try:
+            with np.errstate(all='ignore'):
+                t = np.asarray(FlowCal.transform.to_mef(d, chs, [curves[c] for c in chs], chs), dtype=float)
+                want = a.copy()
+                for c in chs:
+                    want[:, c] = curves[c](a[:, c])
+        except Exception as e:
+            return {'nonfinite': 'raised %s %s' % (type(e).__name__, str(e)[:80])}
+        bad = [(int(i), int(j)) for i, j in np.argwhere(~((t == want) | (np.isnan(t) & np.isnan(want))))]
+        if bad:
+            i, j = bad[0]
+            return {'nonfinite': 'event %d of channel %d (value %r) came back as %r, its curve gives %r' % (i, j, float(a[i, j]), float(t[i, j]), float(want[i, j]))}
+        return {'nonfinite': None}
 
     def run_partial(self, case):
         import random
@@ -307,6 +343,8 @@ class Prop(common.PropertyCheck):
     def oracle(self, case, impl):
         if case['k'] == 'big':
             return None if impl['big'] is None else '%s sample of %d events: %s' % (case['cont'], case['n'], impl['big'])
+        if case['k'] == 'nonfinite':
+            return None if impl['nonfinite'] is None else 'non-finite events (%s, channels %s): %s' % (case['cont'], case['req'], impl['nonfinite'])
         if case['k'] == 'partial':
             if 'err' in impl:
                 return impl['err']
@@ -316,6 +354,8 @@ class Prop(common.PropertyCheck):
             return None if impl.get('err') == 'ValueError' else 'different numbers of curves and channels not refused: %s' % impl.get('err', 'accepted')
         if case['bad'] == 'len':
             return None if 'err' in impl else 'more curves than channels accepted'
+        if impl.get('shape_changed'):
+            return 'to_mef: ' + impl['shape_changed']
         if impl['want'] is None:
             return None if impl.get('err') == 'ValueError' else 'request with an uncovered channel not refused with ValueError: %s' % impl.get('err', 'accepted')
         if 'err' in impl:
@@ -352,7 +392,7 @@ class Prop(common.PropertyCheck):
         return None
 
     def model_request(self, case, impl):
-        if case['k'] != 'mef':
+        if case['k'] != 'mef' or impl.get('shape_changed'):
             return None
         return {'op': 'to_mef', 'meta': impl['meta'], 'channels': impl['args']['channels'], 'ncurves': impl['ncur'],
                 'sc_channels': impl['args']['sc_channels']}
@@ -379,5 +419,7 @@ class Prop(common.PropertyCheck):
             return ('big', case['cont'], case['n'] >> 20)
         if case['k'] == 'partial':
             return ('partial', case['layout'], tuple(impl.get('mef_channels', [])))
+        if case['k'] == 'nonfinite':
+            return ('nonfinite', case['cont'], case['req'])
         return (case['cont'], case['nc'], case['req'], case['scform'], case['bad'], 'err' if 'err' in impl else 'ok',
                 tuple(impl['cols']) == tuple(sorted(impl['cols'])))
